@@ -15,6 +15,7 @@ CONSTANTS
   RetireById = FALSE
   RelOnRefusal = TRUE
   CtxSelect = TRUE
+  CapRegroup = TRUE
 SPECIFICATION Spec
 INVARIANTS TypeOK OwnCopy OwnId_ OwnQuestion CtxPrivate ErrorsFromOwnFlight WaitersAttached ForgottenWhenDone
   LiveRegistered MapsInSync TrackedIsCurrent OneLivePerKey SlotAccounting HoldersRunning SlotsBalanced RefusalHoldsNothing
